@@ -1194,3 +1194,76 @@ def run_clear_on_exit(tier, log, seed):
     else:
         res.update(status="pass")
     return res
+
+
+# ------------------------------------------------------------------------------------------------ C29 (inspector input stacks)
+INSPECTOR_HANDLES = [  # (handler field, expected net effect on the input stacks on every returning path)
+    ("create", +1), ("call", +1), ("eofcreate", +1),
+    ("insert_eofcreate_outcome", -1), ("insert_call_outcome", -1), ("insert_create_outcome", -1), ("last_frame_return", -1),
+]
+
+
+def run_inspector_balance(tier, log, seed):
+    """Every frame closure installed by inspector_handle_register pushes exactly one entry on its input stack on every returning path
+    (also when the inspector short-circuits the call), every insert_*_outcome closure and last_frame_return pops exactly one."""
+    text = mir.dump("revm", log)
+    funcs = mir.parse_functions(text)
+    src = open("/repo/crates/revm/src/inspector/handler_register.rs").read().split("\n")
+    duo = smt.Duo(timeout_s=30)
+    failures, inconcl, samples = [], [], []
+    rel = "crates/revm/src/inspector/handler_register.rs"
+    for field, expect in INSPECTOR_HANDLES:
+        ln = [i for i, l in enumerate(src) if re.search(r"handler\.execution\.%s\s*=" % field, l)]
+        if len(ln) != 1:
+            inconcl.append(f"{field}: assignment not found exactly once in handler_register.rs")
+            continue
+        cl_line = None
+        for j in range(ln[0], min(ln[0] + 6, len(src))):
+            if "move |" in src[j]:
+                cl_line = j + 1
+                break
+        if cl_line is None:
+            inconcl.append(f"{field}: closure literal not found after the assignment")
+            continue
+        cands = [f for n, fl in funcs.items() for f in fl if "inspector_handle_register::{closure#" in n and f"{{closure@{rel}:{cl_line}:" in f.sig]
+        if len(cands) != 1:
+            inconcl.append(f"{field}: {len(cands)} MIR closures at line {cl_line}")
+            continue
+        fn = cands[0]
+        delta = {}
+        for b in fn.blocks.values():
+            c = callee_of(b.term or "")
+            if not c:
+                continue
+            if re.search(r"^Vec::<Box<(CallInputs|CreateInputs|EOFCreateInputs)>>::push$", c[3].split("(")[0]):
+                delta[b.name] = "1"
+            elif re.search(r"^Vec::<Box<(CallInputs|CreateInputs|EOFCreateInputs)>>::pop$", c[3].split("(")[0]):
+                delta[b.name] = "(- 1)"
+        ev = str(expect) if expect >= 0 else f"(- {-expect})"
+        v, info = path_search(fn, duo, delta, {}, {}, lambda c_, k, b_: f"(not (= {c_} {ev}))")
+        samples.append(f"{field}: closure at line {cl_line}, {info.get('blocks')} blocks, {len(delta)} push/pop site(s), every returning path has net {expect:+d}: {v}")
+        log(f"[e3] {samples[-1]}")
+        if v == "unsat":
+            continue
+        if v != "sat":
+            inconcl.append(f"{field}: {info}")
+            continue
+        st, out = native.call("debug", "inspector_balance", log=log)
+        desc = f"inspector {field} closure: a returning path pushes/pops its input stack a net number of times other than {expect:+d} (path {'>'.join(info['path'][-6:])})"
+        if st == "ok":
+            bad = "UNBALANCED" in out
+            failures.append(dict(id=f"inspector-{field}", reproduced=bad, description=desc + f" | native: {out}"))
+        else:
+            # e.g. `pop().unwrap()` on an empty stack panics inside the native scenario: that is the imbalance showing
+            failures.append(dict(id=f"inspector-{field}", reproduced=(st == "panic"), description=desc + f" | native: {st} {out}"))
+    q, tm = duo.queries, duo.time
+    duo.close()
+    res = dict(queries=q, solver_s=tm, engine="mir-cfg -> smtlib path search (z3 4.8.12 + cvc5 1.0)", bounds="; ".join(samples),
+               detail="push/pop sites: Vec::<Box<CallInputs|CreateInputs|EOFCreateInputs>>::{push,pop}; unwind edges (pop().unwrap() on an empty stack) excluded")
+    if inconcl:
+        res.update(status="inconclusive", reason="; ".join(map(str, inconcl))[:500])
+    elif failures:
+        res.update(status="fail", failures=failures, reason=failures[0]["description"][:300])
+    else:
+        res.update(status="pass")
+    return res
